@@ -28,44 +28,56 @@ theorem mem_tracksOf {s : Members.State} {c t : Int} : t ∈ Members.tracksOf s 
     rw [← this]; exact hp
   · intro h; exact ⟨(c, t), ⟨h, rfl⟩, rfl⟩
 
-theorem mem_pairs_iff {d : Db} {c t : Int} : (c, t) ∈ (absM d).pairs ↔ ∃ r ∈ d.pe, r.key = c ∧ r.val.track = t := by
+theorem mem_pairs_iff {d : Db} {c t : Int} :
+    (c, t) ∈ (absM d).pairs ↔ ∃ r ∈ d.pe, r.key = c ∧ r.val.track = t ∧ r.val.uuid = 0 := by
   rw [absM_pairs]
-  simp only [List.mem_map, pairOf, Prod.mk.injEq]
+  simp only [List.mem_map, List.mem_filter, pairOf, Prod.mk.injEq]
   constructor
-  · rintro ⟨k, hk, e1, e2⟩
+  · rintro ⟨k, ⟨hk, ho⟩, e1, e2⟩
     obtain ⟨r, hr, rfl⟩ := mem_cores.mp hk
-    exact ⟨r, hr, e1, e2⟩
-  · rintro ⟨r, hr, e1, e2⟩
-    exact ⟨core r, mem_cores.mpr ⟨r, hr, rfl⟩, e1, e2⟩
+    exact ⟨r, hr, e1, e2, own_iff.mp ho⟩
+  · rintro ⟨r, hr, e1, e2, e3⟩
+    exact ⟨core r, ⟨mem_cores.mpr ⟨r, hr, rfl⟩, own_iff.mpr e3⟩, e1, e2⟩
 
-/-- crate::tracks lists exactly the Spec's contents of the crate: each track once, only live tracks. -/
+/-- crate::tracks lists exactly the Spec's contents of the crate: each track once, only live tracks — whatever
+entries of other databases the list holds besides. -/
 theorem qTracks_spec {S : Ord} {d : Db} (hC : ChInv S d) (hM : MemInv d) (c : Int) :
     ∃ l, qTracks d c = .ok l ∧ l.Nodup ∧ (∀ t, t ∈ l ↔ t ∈ Members.tracksOf (absM d) c) ∧ ∀ t ∈ l, t ∈ qAllTracks d := by
   obtain ⟨rows, hw, hm, hr⟩ := walkBack_spec hC.re c
-  have hmemiff : ∀ t, t ∈ rows.map (·.val.track) ↔ (c, t) ∈ (absM d).pairs := by
+  have hmemiff : ∀ t, t ∈ (rows.filter (·.val.uuid == 0)).map (·.val.track) ↔ (c, t) ∈ (absM d).pairs := by
     intro t
     rw [mem_pairs_iff]
     constructor
     · intro h
       obtain ⟨r, hrm, rfl⟩ := List.mem_map.mp h
-      exact ⟨r, (hr r hrm).1, (hr r hrm).2, rfl⟩
-    · rintro ⟨r, hrt, hk, hv⟩
-      have h1 : r.id ∈ S.ents c := hk ▸ hC.re.mem r hrt
+      obtain ⟨hr1, hr2⟩ := List.mem_filter.mp hrm
+      exact ⟨r, (hr r hr1).1, (hr r hr1).2, rfl, by simpa using hr2⟩
+    · rintro ⟨r, hrt, hk, hv, hu⟩
+      have h1 : r.id ∈ S.entIds c := hk ▸ hC.re.mem r hrt
       rw [← hm] at h1
       obtain ⟨r', hr', e⟩ := List.mem_map.mp h1
       have := eq_of_id_eq hC.re.ids_nodup (hr r' hr').1 hrt e
-      rw [← hv, ← this]
-      exact List.mem_map.mpr ⟨r', hr', rfl⟩
-  refine ⟨rows.map (·.val.track), by simp [qTracks, hw, Res.bind], ?_, ?_, ?_⟩
-  · apply nodup_map_of_inj_on (l := rows) (fun r : Row Ent => r.id) (fun r : Row Ent => r.val.track) (hm ▸ hC.re.nodup c)
+      rw [← hv]
+      exact List.mem_map.mpr ⟨r', List.mem_filter.mpr ⟨hr', by rw [this]; simpa using hu⟩, by rw [this]⟩
+  refine ⟨(rows.filter (·.val.uuid == 0)).map (·.val.track), by simp [qTracks, hw, Res.bind], ?_, ?_, ?_⟩
+  · have hnd : ((rows.filter (·.val.uuid == 0)).map (fun r : Row Ent => r.id)).Nodup :=
+      List.Nodup.sublist (List.Sublist.map _ List.filter_sublist) (hm ▸ hC.re.nodup c)
+    apply nodup_map_of_inj_on (l := rows.filter (·.val.uuid == 0)) (fun r : Row Ent => r.id) (fun r : Row Ent => r.val.track) hnd
     intro x hx y hy e
-    have := hM.pairs.pair_unique (core x) (mem_cores.mpr ⟨x, (hr x hx).1, rfl⟩) (core y) (mem_cores.mpr ⟨y, (hr y hy).1, rfl⟩)
-      (by simp [core, (hr x hx).2, (hr y hy).2]) (by simp [core, e])
+    obtain ⟨hx1, hx2⟩ := List.mem_filter.mp hx
+    obtain ⟨hy1, hy2⟩ := List.mem_filter.mp hy
+    have hxv : x.val = y.val := by
+      have h1 : x.val.uuid = 0 := by simpa using hx2
+      have h2 : y.val.uuid = 0 := by simpa using hy2
+      cases hx' : x.val; cases hy' : y.val
+      simp_all
+    have := hC.pairs.pair_unique (core x) (mem_cores.mpr ⟨x, (hr x hx1).1, rfl⟩) (core y) (mem_cores.mpr ⟨y, (hr y hy1).1, rfl⟩)
+      (by simp [core, (hr x hx1).2, (hr y hy1).2]) (by simp [core, hxv])
     exact congrArg (·.1) this
   · intro t; rw [hmemiff, mem_tracksOf]
   · intro t ht
-    obtain ⟨r, hrt, _, hv⟩ := mem_pairs_iff.mp ((hmemiff t).mp ht)
-    exact hv ▸ (hM.live (core r) (mem_cores.mpr ⟨r, hrt, rfl⟩)).2
+    obtain ⟨r, hrt, _, hv, hu⟩ := mem_pairs_iff.mp ((hmemiff t).mp ht)
+    exact hv ▸ (hM.live (core r) (mem_cores.mpr ⟨r, hrt, rfl⟩) hu).2
 
 /-! ### frame -/
 
@@ -177,10 +189,10 @@ theorem foldlM_frame (ok : Bool) (p : Int × Int) : ∀ (mops : List Members.Op)
       rw [ih s1 s' h (fun mop hm => hp mop (List.mem_cons_of_mem _ hm)), spec_frame h1 p (hp m (by simp))]
 
 /-- Frame: an operation leaves untouched every (crate, track) pair it is not about. -/
-theorem step_frame {S : Ord} {d : Db} (hI : Inv S d) (op : Op) (hapi : apiOp op = true) (p : Int × Int)
-    (hp : ∀ mop ∈ membersOps d op (step d op).2, ¬ touches mop p) :
+theorem step_frame {S : Ord} {d : Db} (hI : Inv S d) (op : Op) (hm : memOp op = true) (p : Int × Int)
+    (hp : ∀ mop ∈ membersOps (absF d) op (step d op).2, ¬ touches mop p) :
     p ∈ (absM (step d op).1).pairs ↔ p ∈ (absM d).pairs := by
-  have hj := (mstep hI.mem hI.pl hI.ch op hapi).judge
+  have hj := (mstep hI.mem hI.pl hI.ch op hm).judge
   unfold judgeM at hj
   cases ho : outcome (step d op).2 with
   | none => rw [ho] at hj; simp at hj
